@@ -97,31 +97,31 @@ Definition check_range (fits : Z -> bool) (s : scan) : dres :=
 
 (* NewBigDecFromStr (bound on the magnitude before the sign is applied) and LegacyNewDecFromStr
    (range check after the sign): both are [fits] on a symmetric range, so one definition serves *)
+Definition dec_parse_unsigned (prec : nat) (fits : Z -> bool) (neg : bool) (s1 : list Z) : dres :=
+  match s1 with
+  | [] => DErr
+  | _ =>
+      let finish (comb : list Z) (lendecs : nat) : dres :=
+        if (prec <? lendecs)%nat then DErr else
+        match set_string 10 (comb ++ repeat c_zero (prec - lendecs)) with
+        | SOk v => if fits v then DOk (if neg then - v else v) else DErr
+        | _ => DErr
+        end in
+      match split_on c_dot s1 [] with
+      | [i] => finish i 0%nat
+      | [i; f] => match f, i with
+                  | [], _ => DErr
+                  | _, [] => DErr
+                  | _, _ => finish (i ++ f) (length f)
+                  end
+      | _ => DErr
+      end
+  end.
 Definition dec_from_str (prec : nat) (fits : Z -> bool) (s : list Z) : dres :=
   match s with
   | [] => DErr
-  | c0 :: r0 =>
-      let neg := c0 =? c_minus in
-      let s1 := if neg then r0 else s in
-      match s1 with
-      | [] => DErr
-      | _ =>
-          let finish (comb : list Z) (lendecs : nat) : dres :=
-            if (prec <? lendecs)%nat then DErr else
-            match set_string 10 (comb ++ repeat c_zero (prec - lendecs)) with
-            | SOk v => if fits v then DOk (if neg then - v else v) else DErr
-            | _ => DErr
-            end in
-          match split_on c_dot s1 [] with
-          | [i] => finish i 0%nat
-          | [i; f] => match f, i with
-                      | [], _ => DErr
-                      | _, [] => DErr
-                      | _, _ => finish (i ++ f) (length f)
-                      end
-          | _ => DErr
-          end
-      end
+  | c0 :: r0 => if c0 =? c_minus then dec_parse_unsigned prec fits true r0
+                else dec_parse_unsigned prec fits false s
   end.
 
 (* Unmarshal (gogoproto custom type): empty data leaves a nil receiver *)
